@@ -22,13 +22,18 @@ MANIFEST = {
             "one generic stream recursion instantiated for pass 1 (HandleSuffix on SuffixOrder-sorted merged n-gram streams "
             "writes exactly the longest-suffix probabilities and from levels) and pass 2 (Recurse::SameContext/ExtendContext on "
             "ContextOrder-sorted streams consumes every record and writes exactly the functional values); sorted streams are "
-            "proved to have the grouped shape the recursion needs; BackoffManager queue + "
+            "proved to have the grouped shape the recursion needs; pass 1 also with the component streams kept apart "
+            "(NGramHandler::active_, the minimum loop: picks the head of the merged stream, contributors = exactly the "
+            "components that have the n-gram, under their own model numbers; decide-witness that the seeded wrong-index "
+            "change breaks it); BackoffMatrix Enter/Exit/Get per component and level and the charging loop = the "
+            "functional charge (decide-witness for Get(m,found)); MergeVocab's universal ids for any hash values and tie "
+            "order (same id iff same hash/word); BackoffManager queue + "
             "pass-3 zip: the back-off stream of each order is the SuffixOrder-sorted list of n-grams that get a record, aligned "
             "with the probability stream iff nothing is stuck and strictly shorter otherwise (the abort of finding K is derived; "
             "equal orders never hit it; machine-checked witness for mixed orders); BoundedSequenceEncoding round trip for any "
             "bounds / any number of 64-bit words, and exactly when it shifts by 64 (UB witness). "
-            "PARTIAL: the k-way minimum selection among component streams in pass 1, BackoffManager's per-model bookkeeping, "
-            "util::stream (sort, chains, RewindableStream), threads, MergeVocab's hash order and float32/long-double rounding "
+            "PARTIAL: BackoffManager's heap over per-model streams (modelled on the merged queue), MergeVocab's heap (pops "
+            "taken as any non-decreasing sequence), util::stream (sort, chains, RewindableStream), threads, MergeVocab's hash order and float32/long-double rounding "
             "are tied only through the final ARPA output of bin/interpolate compared "
             "with the compiled Lean driver on seeded tuples of lmplz --intermediate models (tolerance 1e-5), and the real "
             "bounded_sequence_encoding header in-process (ASan/UBSan).",
@@ -37,7 +42,7 @@ MANIFEST = {
             "10^x / log10), harness/c13_bse.cc; lmplz as producer of the inputs. Hypotheses of the theorems (prefix/suffix "
             "closure, no n-gram predicting <s>, p(<s>)=1, <unk> only as a unigram with zero back-off, words of n-grams have "
             "unigrams, finite values) are decidable and checked on every generated model. Tolerance 1e-5 absolute on log10 values "
-            "(observed max 5.7e-7). Known findings: abort for unequal orders (unequal-orders-ngram-without-backoff-record); "
+            "(observed max 8.2e-7). Known findings: abort for unequal orders (unequal-orders-ngram-without-backoff-record); "
             "uint64 shift by 64 in BoundedSequenceEncoding (bse-zero-width-field-shift-64, repair in repo_patches/).",
     "technique": "Lean 4 proof (induction / refinement over an executable model, abstract exponential + real instantiation) + "
                  "differential correspondence of bin/interpolate and the real encoding header with the compiled Lean driver and "
@@ -46,7 +51,8 @@ MANIFEST = {
 
 REQUIRED = ["KV.C13.z_incremental", "KV.C13.normalised", "KV.C13.formula", "KV.C13.ngram_union",
             "KV.C13.single_identity", "KV.C13.spec_eq_tool", "KV.C13.formula_spec", "KV.C13.pass12_refines",
-            "KV.C13.vocab_union", "KV.C13.ngram_union_renumbered", "KV.C13.pass1_on_sorted_streams", "KV.C13.pass1_record_values", "KV.C13.pass2_stream_refines", "KV.C13.pass2_on_sorted_streams", "KV.C13.visited_contexts", "KV.C13.pass3_zip", "KV.C13.bse_roundtrip", "KV.C13.bse_no_ub", "KV.C13.bse_shift64_witness", "KV.C13.equal_orders_not_stuck", "KV.C13.abort_witness",
+            "KV.C13.vocab_union", "KV.C13.ngram_union_renumbered", "KV.C13.pass1_on_sorted_streams", "KV.C13.pass1_kway", "KV.C13.kway_selects_head", "KV.C13.c13_3_wrong_model_index",
+            "KV.C13.backoff_matrix_get", "KV.C13.charging_loop", "KV.C13.c13_5_wrong_level", "KV.C13.merge_vocab_ids", "KV.C13.pass1_record_values", "KV.C13.pass2_stream_refines", "KV.C13.pass2_on_sorted_streams", "KV.C13.visited_contexts", "KV.C13.pass3_zip", "KV.C13.bse_roundtrip", "KV.C13.bse_no_ub", "KV.C13.bse_shift64_witness", "KV.C13.equal_orders_not_stuck", "KV.C13.abort_witness",
             "KV.C13.termination_fails_mixed_orders", "KV.C13.formula_real", "KV.C13.normalised_real",
             "KV.C13.interp_nonpos", "KV.C13.z_incremental_real"]
 
@@ -86,10 +92,25 @@ def gen_case(rng, kind=None):
     """A case = list of (corpus text, order) + weights + settings.  Kinds:
     single | same-order | same-corpus-mixed | nested-mixed | diff-mixed"""
     kind = kind or rng.choice(["single", "same-order", "same-order", "same-corpus-mixed", "nested-mixed",
-                               "diff-mixed", "same-order", "disjoint", "disjoint"])
+                               "diff-mixed", "same-order", "disjoint", "disjoint", "deep"])
     n = 1 if kind == "single" else rng.choice([2, 2, 3])
     comps = []
-    if kind == "disjoint":
+    if kind == "deep":
+        # order >= 4 models from different corpora over a shared vocabulary: components that back off two or more
+        # levels below the context (long charging loops over the back-off matrix)
+        n = rng.choice([2, 3])
+        order = rng.choice([4, 4, 5])
+        v = ["w%d" % j for j in range(rng.choice([4, 5, 6]))]
+        for i in range(n):
+            comps.append((G.gen_corpus(rng, v, rng.choice([6, 12, 25]), rng.choice([5, 8])), order))
+    elif kind == "many":
+        # >= 22 components of order >= 4: the from-vector of a record needs more than one 64-bit word
+        n = rng.choice([22, 23, 25])
+        order = rng.choice([4, 5])
+        v = ["w%d" % j for j in range(4)]
+        for i in range(n):
+            comps.append((G.gen_corpus(rng, v + ["x%d" % (i % 3)], rng.choice([2, 4]), 5), order))
+    elif kind == "disjoint":
         # (nearly) disjoint vocabularies of different sizes: the union vocabulary is much larger than any component's,
         # contexts (<s>, a hub word) with very many successors, smallest block sizes
         n = rng.choice([3, 3, 2])
@@ -145,11 +166,18 @@ def gen_case(rng, kind=None):
         rng.shuffle(comps)
     if kind == "single" and rng.random() < 0.6:
         weights = [1.0]
+    elif n > 3:
+        weights = [round(rng.uniform(-0.2, 0.3), 3) for _ in range(n)]
     else:
         weights = list(rng.choice(WEIGHT_CHOICES[n]))
         if rng.random() < 0.25:
             weights = [round(rng.uniform(-1.0, 2.0), 3) for _ in range(n)]
-    setting = rng.choice(TINY_SETTINGS if (kind == "disjoint" or rng.random() < 0.3) else SETTINGS)
+    if n > 3:
+        # records grow with the number of components (from-vector): keep blocks >= 1K, a block smaller than two
+        # records is refused by util::stream::Chain (and, thrown mid-pipeline, hangs like config-rejection-deadlock)
+        setting = rng.choice([(None, None), ("40M", "1M"), ("4M", "64K"), ("64K", "1K"), ("4K", "1K")])
+    else:
+        setting = rng.choice(TINY_SETTINGS if (kind == "disjoint" or rng.random() < 0.3) else SETTINGS)
     return {"kind": kind, "comps": comps, "weights": weights, "setting": setting}
 
 
@@ -294,7 +322,7 @@ def run_case(ctx, case, bins, dexe, wd, cap_ctx):
     n_high = sum(len(m["entries"].get(k, [])) for m in models for k in range(2, maxo + 1))
     r.detail["stream"] = stream_line
     if not (sf.get("shape") == "true" and sf.get("consumed") == "true" and G.f64_from_bits(sf["maxdev"]) <= 1e-9
-            and sf.get("p1shape") == "true" and sf.get("p1ok") == "true"):
+            and sf.get("p1shape") == "true" and sf.get("p1ok") == "true" and sf.get("matok") == "true"):
         r.status, r.what = "violation", "Lean stream model of pass 2 disagrees with the functional model: " + stream_line
         r.no_input = True
         return r
@@ -693,11 +721,13 @@ def run(ctx):
     found = found_bse
     try:
         quick = ctx.tier == "quick"
-        n = 26 if quick else 300
+        n = 24 if quick else 300
         cap_ctx = 120 if quick else 400
         # fixed coverage first: every kind once, then random kinds
-        kinds = ["single", "disjoint", "same-order", "same-corpus-mixed", "nested-mixed", "diff-mixed", "disjoint",
-                 "same-order", "disjoint"]
+        kinds = ["single", "disjoint", "deep", "same-order", "same-corpus-mixed", "nested-mixed", "diff-mixed",
+                 "disjoint", "deep", "same-order", "disjoint"]
+        if not quick:
+            kinds = ["many", "many"] + kinds
         # settings the tool may refuse: must be refused cleanly (exit 1 + message), never by hanging or aborting
         for st in REJECT_SETTINGS:
             case = gen_case(ctx.rng, "disjoint")
